@@ -1485,9 +1485,10 @@ def run(model: Model, rep, tier: str) -> None:
 _U = "skfem/utils.py"
 MUTANTS = [
     ("condense indexes the matrix in the format given",
-     (_U, "    # COO, DIA and BSR matrices cannot be indexed\n    if A.format "
-      "in ('coo', 'dia', 'bsr'):\n        A = A.tocsr()\n    if isinstance("
-      "b, spmatrix)", "    if isinstance(b, spmatrix)"), "C05-R3"),
+     (_U, "    # COO, DIA and BSR matrices cannot be indexed\n    if "
+      "getattr(A, 'format', None) in ('coo', 'dia', 'bsr'):\n        A = "
+      "A.tocsr()\n    if isinstance(b, spmatrix)",
+      "    if isinstance(b, spmatrix)"), "C05-R3"),
     ("penalize takes the fallback scale in the format given",
      (_U, "            scale = abs(Aout.tocsr()).max() if Aout.nnz > 0 else "
       "0.", "            scale = abs(Aout).max() if Aout.nnz > 0 else 0."),
